@@ -153,7 +153,7 @@ impl Property for C09 {
         "C09"
     }
     fn rule(&self) -> String {
-        "SEM programs (root + headers, plus seeded semantic faults in every file so that included files carry diagnostics) written to a scratch directory with per-file line structure: 0..5 extra leading lines (blank / comment / non-ASCII comment / multi-line block comment), LF, CRLF or mixed line endings (LF / CRLF / lone CR per line), non-ASCII text inside strings, sometimes a byte order mark in front and comment lines with U+2028/U+0085/form feed. Real server: didOpen(root), then definition and references at every identifier of the root, documentSymbol, foldingRange, documentLink, inlayHint(whole file), and the published diagnostics of every file; then a didChange of the root to the same bytes with a different line structure (line breaks after ';' and '}' turned into spaces: byte offsets stay, lines and columns move), after which the diagnostics the client holds for every file and the documentSymbol answer are compared again; then the first header is opened too (it is the root of its own workspace: diagnostics and outline compared), the former root is touched again, and definition/references at up to 80 identifiers, documentSymbol and inlayHint of the now open *included* document are compared. Oracle: the ide-level result for the same files (separate AnalysisHost) converted with the reference position mapper against the text of the file each location names; URIs and ranges must match exactly (reference lists and diagnostics as multisets); independently of that oracle, every definition range, read in the text of the file it names, must spell the identifier asked about. distinct = (seed, n); non-trivial = a definition or reference in another file whose line differs from the same offset's line in the requesting file, or a root diagnostic that had to be re-published with moved lines after the relayout".into()
+        "SEM programs (root + headers, plus seeded semantic faults in every file so that included files carry diagnostics) written to a scratch directory with per-file line structure: 0..5 extra leading lines (blank / comment / non-ASCII comment / multi-line block comment), LF, CRLF or mixed line endings (LF / CRLF / lone CR per line), non-ASCII text inside strings, sometimes a byte order mark in front and comment lines with U+2028/U+0085/form feed. Real server: didOpen(root), then definition and references at every identifier of the root, documentSymbol, foldingRange, documentLink, inlayHint(whole file), and the published diagnostics of every file; then a didChange of the root to the same bytes with a different line structure (line breaks after ';' and '}' turned into spaces: byte offsets stay, lines and columns move), after which the diagnostics the client holds for every file and the documentSymbol answer are compared again; then the first header is opened too (it is the root of its own workspace: diagnostics and outline compared) and edited (same bytes, moved line breaks), the former root is touched again, and definition/references at up to 80 identifiers, documentSymbol and inlayHint of the now open *included* document are compared. Oracle: the ide-level result for the same files (separate AnalysisHost) converted with the reference position mapper against the text of the file each location names; URIs and ranges must match exactly (reference lists and diagnostics as multisets); independently of that oracle, every definition range, read in the text of the file it names, must spell the identifier asked about. distinct = (seed, n); non-trivial = a definition or reference in another file whose line differs from the same offset's line in the requesting file, or a root diagnostic that had to be re-published with moved lines after the relayout".into()
     }
     fn assumptions(&self) -> Vec<String> {
         vec!["the ide-level analysis of the same files is taken as 'the span the analysis computed' (its own correctness is C05/C17's business); 'idle' = all spawned tasks ended (verif hook counters)".into()]
@@ -440,6 +440,21 @@ impl Property for C09 {
             if got != want {
                 return done(c, fail("C09.document-symbol-included-opened", format!("server {:?}, expected {:?}", got, want)));
             }
+            // the header is edited while it is open (same bytes, moved line breaks): from now on this is
+            // the text its positions refer to
+            let h_text2 = relayout(&h_text);
+            let (h_text, h_rp) = if h_text2 != h_text {
+                c.did_change(&h_uri, 5, &h_text2);
+                sent += 1;
+                if !sched.wait_idle(sent, Duration::from_secs(60)) || !c.barrier(&h_uri) {
+                    return done(c, Verdict::Skip("not-idle"));
+                }
+                cur[1].1 = h_text2.clone();
+                labels.push("open included document edited");
+                (h_text2.clone(), RefPos::new(&h_text2))
+            } else {
+                (h_text.clone(), RefPos::new(&h_text))
+            };
             // the former root is touched again (same text): the header is now an open included document
             let cur_root = cur[0].1.clone();
             c.did_change(&root_uri, 7, &cur_root);
